@@ -1,4 +1,5 @@
 pub mod diffexec;
+pub mod irck;
 pub mod irexec;
 pub mod sample;
 pub mod val;
